@@ -166,11 +166,13 @@ class MachineGen:
                 return ("←" + r.choice(self.vars_set) + " ") if self.vars_set else self.lit()
             return c
         if k < 0.55:
-            return self.int_expr(d - 1, pure) + self.int_expr(d - 1, pure) + r.choice("+-*=<>∧∨")
+            return self.int_expr(d - 1, pure) + self.int_expr(d - 1, pure) + r.choice("+-*=<>∧∨+-*%ḭ≠≤≥∴∵ε")
         if k < 0.7:
-            return self.int_expr(d - 1, pure) + r.choice("›‹Nd¬ḃ")
+            return self.int_expr(d - 1, pure) + r.choice("›‹Nd¬ḃ²±ȧ∷⌐₂₃d½")
+        if k < 0.85:
+            return self.list_expr(d - 1, pure) + r.choice("∑LhtGgΠ≈aA₂₃")
         if k < 0.9:
-            return self.list_expr(d - 1, pure) + r.choice("∑Lht")
+            return self.list_expr(d - 1, pure) + self.int_expr(d - 1, pure) + r.choice("cO")
         return self.int_expr(d - 1, pure) + self.int_expr(d - 1, pure) + "$_"
 
     def pure_body(self, d):
@@ -193,7 +195,7 @@ class MachineGen:
         if d <= 0 or k < 0.3:
             c = r.choice(["range", "range", "lit", "lit", "wrap"])
             if c == "range":
-                return r.choice(["3 ", "4 ", "5 ", "2 "]) + r.choice("ɾʁ")
+                return r.choice(["3 ", "4 ", "5 ", "2 "]) + r.choice("ɾʁɾʁʀɽ")
             if c == "wrap":
                 return self.int_expr(0, pure) + "w"
             n = r.randint(0, 4)
@@ -201,9 +203,10 @@ class MachineGen:
         if k < 0.4:
             return self.list_expr(d - 1, pure) + self.list_expr(d - 1, pure) + r.choice(["J", "+", "-", "*", "\""])
         if k < 0.5:
-            return self.list_expr(d - 1, pure) + self.int_expr(d - 1, pure) + r.choice(["+", "*", "J", "<", "="])
+            return self.list_expr(d - 1, pure) + self.int_expr(d - 1, pure) + r.choice(["+", "*", "J", "<", "=", "p", "%", "ḭ", "≤", "≥", "-"])
         if k < 0.6:
-            return self.list_expr(d - 1, pure) + r.choice(["Ṙ", "U", "f", "s", "›", "d", "N"])
+            return self.list_expr(d - 1, pure) + r.choice(["Ṙ", "U", "f", "s", "›", "d", "N", "Ḣ", "Ṫ", "ż", "ẏ", "¯", "¦", "²", "±",
+                                                             "ȧ", "∷", "⌐", "ḣ_", "ṫ_", "ḣ$_", "ṫ$_w"])
         if k < 0.75:
             return self.list_expr(d - 1, pure) + r.choice(["ƛ", "'", "µ"]) + self.pure_body(d - 1) + ";"
         if k < 0.8:
